@@ -154,12 +154,33 @@ func workerMain(args []string) int {
 	}
 	go func() {
 		lastProgress := int64(-1)
+		// The verdict needs this goroutine to have looked often enough while the run was going on: a
+		// machine that stood still (a VM snapshot, a stopped process) makes wall and CPU clocks jump
+		// without the run having had that time. ticks counts looks at the same run without progress.
+		ticks, lastRun := 0, ^uint64(0)
+		minTicks := int(timeout / time.Second) // half of the looks a full timeout would see
+		lastWake := time.Now()
 		for {
 			time.Sleep(500 * time.Millisecond)
+			slept := time.Since(lastWake)
+			lastWake = time.Now()
 			st := runStarted.Load()
 			if st == 0 {
+				ticks = 0
 				continue
 			}
+			if cr := curRun.Load(); cr != lastRun {
+				lastRun, ticks = cr, 0
+			}
+			if slept > 5*time.Second {
+				// this goroutine itself was held up: whatever the clocks say now, start over
+				if runStarted.CompareAndSwap(st, time.Now().UnixNano()) {
+					runStartCPU.Store(cpuNanos())
+				}
+				ticks = 0
+				continue
+			}
+			ticks++
 			if pr := atomic.LoadInt64(&core.Progress); pr != lastProgress {
 				// the simulation scheduled something since the last look: the clocks start again
 				// (a run that keeps scheduling is ended by its own step budget, not by this watchdog)
@@ -169,11 +190,12 @@ func workerMain(args []string) int {
 					}
 				}
 				lastProgress = pr
+				ticks = 0
 				continue
 			}
 			cpu := time.Duration(cpuNanos() - runStartCPU.Load())
 			wall := time.Since(time.Unix(0, st))
-			if cpu > timeout || wall > 20*timeout {
+			if (cpu > timeout || wall > 20*timeout) && ticks >= minTicks {
 				buf := make([]byte, 1<<18)
 				n := runtime.Stack(buf, true)
 				fmt.Fprintf(os.Stderr, "HANG run=%d engine=%s after %v of CPU time (%v wall)\n%s\nENDHANG\n", curRun.Load(), eng.Name, cpu.Round(time.Second), wall.Round(time.Second), buf[:n])
